@@ -143,19 +143,38 @@ class Ctx:
         return self.class_fns[key]
 
     def run_array(self, base, cls):
-        """run[i] = number of consecutive code points of `base` from i that are in cls."""
+        """run[i] = number of consecutive code points of `base` from i that are in cls.
+        Returned as a list of n+1 Int constants (looked up with a balanced ite tree: the
+        array theory made z3 time out on queries with symbolic view offsets)."""
         key = (base, tuple(cls))
         if key not in self.classes:
             pred = self.class_pred(cls)
             arr, L = self.bases[base]
             name = f"run{len(self.classes)}_{base}"
-            self.decls.append(f"(declare-const {name} (Array Int Int))")
-            self.asserts.append(S("=", S("select", name, self.n), 0))
+            cells = [f"{name}_{i}" for i in range(self.n + 1)]
+            for c in cells:
+                self.decls.append(f"(declare-const {c} Int)")
+            self.asserts.append(S("=", cells[self.n], 0))
             for i in range(self.n - 1, -1, -1):
-                self.asserts.append(S("=", S("select", name, i),
-                                      S("ite", S("and", S("<", i, L), S(pred, f"{base}_{i}")), S("+", 1, S("select", name, i + 1)), 0)))
-            self.classes[key] = name
+                self.asserts.append(S("=", cells[i], S("ite", S("and", S("<", i, L), S(pred, f"{base}_{i}")), S("+", 1, cells[i + 1]), 0)))
+            self.classes[key] = cells
         return self.classes[key]
+
+    def lookup(self, cells, idx):
+        """cells[idx] for a symbolic idx in 0..len(cells)-1 (0 outside)."""
+        try:
+            k = int(idx)
+            return cells[k] if 0 <= k < len(cells) else "0"
+        except (TypeError, ValueError):
+            pass
+        iname = self.define("ix", "Int", idx)
+
+        def tree(lo, hi):
+            if lo == hi:
+                return cells[lo]
+            mid = (lo + hi) // 2
+            return S("ite", S("<=", iname, mid), tree(lo, mid), tree(mid + 1, hi))
+        return self.define("lk", "Int", tree(0, len(cells) - 1))
 
     def script(self, extra_asserts, get=()):
         lines = ["(set-logic ALL)", "(set-option :produce-models true)"]
@@ -251,7 +270,7 @@ class View:
         groups = {}
         for sg in segs:
             run = ctx.run_array(self.base, sg.cls)
-            avail = MIN(S("select", run, pos), S("-", vend, pos))
+            avail = MIN(ctx.lookup(run, pos), S("-", vend, pos))
             take = avail if sg.hi is None else MIN(avail, sg.hi)
             take = ctx.define("take", "Int", take)
             ok.append(S(">=", take, sg.lo))
@@ -432,6 +451,9 @@ class Model:
             v = rv[1]
             if name == "is_empty" and not av:
                 return ("bool", v.is_empty())
+            if name == "is_char_boundary" and len(av) == 1 and av[0][0] == "int":
+                ok, _ = v.slice_from_byte(av[0][1])
+                return ("bool", ok)
             if name in ("starts_with", "ends_with") and len(av) == 1 and av[0][0] == "const":
                 return ("bool", getattr(v, name)(av[0][1]))
             if name in ("to_owned", "to_string", "as_str", "into", "clone", "as_ref", "borrow") and not av:
@@ -741,8 +763,10 @@ def build_queries(model):
     st = State(ctx)
     valid = model.eval_is_valid(ns, tp, st)
     qs.append(("is_valid_panic", "exists (ns,tp): is_valid panics", ctx, [shape, st.panic], "s", "is_valid must not panic"))
-    qs.append(("server_rule_equals_parser", "exists (ns,tp): is_valid(ns,tp) differs from try_from('/'+ns+'/'+tp).is_ok()",
-               ctx, [shape, NOT(st.panic), S("xor", valid, out.ok)], "s", "server-side check must agree with the parser"))
+    qs.append(("server_accepts_only_parsable", "exists (ns,tp): is_valid(ns,tp) holds but try_from('/'+ns+'/'+tp) is not Ok",
+               ctx, [shape, NOT(st.panic), valid, NOT(out.ok)], "s", "server-side check must not accept what the parser rejects"))
+    qs.append(("server_accepts_all_parsable", "exists (ns,tp): try_from('/'+ns+'/'+tp) is Ok but is_valid(ns,tp) is false",
+               ctx, [shape, NOT(st.panic), NOT(valid), out.ok], "s", "server-side check must accept what the parser accepts"))
     # create
     ctx2 = Ctx(n, model.word)
     s2 = ctx2.base_string("s")
@@ -795,7 +819,7 @@ fn main() {{
         "fields_are_parts" => match &r {{ Ok(Ok((n, t, _, _))) => format!("/{{}}/{{}}", n, t) != s, _ => false }},
         "prints_back" => match &r {{ Ok(Ok((_, _, d, _))) => d != &s, _ => false }},
         "is_valid_panic" => std::panic::catch_unwind(|| TopicName::_create_unchecked(&ns, &tp).is_valid()).is_err(),
-        "server_rule_equals_parser" => {{
+        "server_accepts_only_parsable" | "server_accepts_all_parsable" => {{
             let v = TopicName::_create_unchecked(&ns, &tp).is_valid();
             v != matches!(r, Ok(Ok(_)))
         }}
@@ -814,14 +838,13 @@ fn main() {{
 '''
 
 
-def main():
-    import argparse
-    ap = argparse.ArgumentParser()
-    ap.add_argument("--out", default=None, help="write result JSON here")
-    ap.add_argument("--timeout", type=int, default=600)
-    ap.add_argument("--dump", default=None, help="directory to dump .smt2 scripts")
-    ap.add_argument("--cross", action="store_true", help="also run every query on cvc5 and require agreement")
-    a = ap.parse_args()
+class _Args:
+    pass
+
+
+def analyse(timeout=600, dump=None, cross=False, jobs=8, only=None):
+    a = _Args()
+    a.timeout, a.dump, a.cross = timeout, dump, cross
     res = {"status": "pass", "queries": [], "functions": [], "reason": ""}
     t0 = time.time()
     try:
@@ -833,7 +856,10 @@ def main():
                         "why": ("all regexes are anchored with finite maximum length max_len; n = max_len + 10, and every statement before the "
                                 "regex inspects only the first 1+len(reserved) characters, so longer strings behave like the longest modelled ones (rejected)"
                                 if complete else "regex unanchored or unbounded: strings longer than n code points are outside the claim")}
-        for name, desc, ctx, asserts, base, expect in qs:
+        import concurrent.futures as cf
+
+        def one(q):
+            name, desc, ctx, asserts, base, expect = q
             get = [f"{base}_len"] + [f"{base}_{i}" for i in range(n)] + [d.split()[1] for d in ctx.decls if d.startswith("(declare-const j_")]
             script = ctx.script(asserts, get=get)
             if a.dump:
@@ -864,7 +890,10 @@ def main():
                 q["result"] = "disagree"
             else:
                 q["result"] = "inconclusive"
-            res["queries"].append(q)
+            return q
+        sel = [q for q in qs if only is None or q[0] in only]
+        with cf.ThreadPoolExecutor(max_workers=jobs) as ex:
+            res["queries"] = list(ex.map(one, sel))
     except Inconclusive as e:
         res["status"] = "inconclusive"
         res["reason"] = str(e)
@@ -875,6 +904,18 @@ def main():
             res["reason"] = "; ".join(f"{q['name']}: {q['result']} {q['solvers']}" for q in res["queries"] if q["result"] in ("inconclusive", "disagree"))
         elif any(q["result"] == "sat" for q in res["queries"]):
             res["status"] = "failed"
+    return res
+
+
+def main():
+    import argparse
+    ap = argparse.ArgumentParser()
+    ap.add_argument("--out", default=None, help="write result JSON here")
+    ap.add_argument("--timeout", type=int, default=600)
+    ap.add_argument("--dump", default=None, help="directory to dump .smt2 scripts")
+    ap.add_argument("--cross", action="store_true", help="also run every query on cvc5 and require agreement")
+    a = ap.parse_args()
+    res = analyse(a.timeout, a.dump, a.cross)
     js = json.dumps(res, indent=1, ensure_ascii=True)
     if a.out:
         open(a.out, "w").write(js)
